@@ -995,3 +995,34 @@ def _post_idem(mon, fs, job):
 
 
 POST["idem"] = _post_idem
+
+
+def _post_digest(mon, fs, job):
+    mon.data["digest"] = result_digest(fs)
+
+
+def _post_repeat(mon, fs, job):
+    """Same configuration a second time in the same process (fresh model,
+    fresh output directory): results must be bit-identical."""
+    from nessai.flowsampler import FlowSampler
+    from .models import make_model
+
+    d1 = result_digest(fs)
+    mon.data["digest"] = d1
+    model2 = make_model(job["model"])
+    kwargs = decode_kwargs(job.get("kwargs", {}), mon)
+    fs2 = FlowSampler(
+        model2, output=job["output"].rstrip("/") + "_rep",
+        importance_nested_sampler=bool(job.get("ins")), resume=False,
+        **kwargs)
+    fs2.run(**dict({"plot": False}, **job.get("run_kwargs", {})))
+    d2 = result_digest(fs2)
+    mon.classes.add("repeated-in-process")
+    for k in d1:
+        if d1[k] != d2[k]:
+            mon.violation(f"same-process-repeat:{k}-differs",
+                          f"{d1[k]} vs {d2[k]}")
+
+
+POST["digest"] = _post_digest
+POST["repeat"] = _post_repeat
